@@ -357,6 +357,23 @@ def mustcall(ctx):
             none_test = any(strip_generics(cname(c)).endswith('Option::is_none') and 'writer' in origin(d, c['args'][0]).fields for c in so.calls)
             flag_test = bool(so.fields) and so.fields <= {'flush_failed'} and not so.calls
             if none_test or flag_test:
-                early.append(d.term(bb)['otherwise'])      # the `true` edge
-        ok = len(direct) == 1 and len(cu) == 1 and viaclosure and must_pass(d, 0, d.exits(), [direct[0][0], cu[0][0]] + early)
+                early.append((bb, d.term(bb)['otherwise']))      # the `true` edge
+        # (the exemption is the *edge*, not its target: the early-return block is shared by both tests, and by any other
+        # test that jumps to it - `writer.is_some()` for one)
+        def reaches_exit_unflushed():
+            via = {direct[0][0], cu[0][0]}
+            exits = set(d.exits())
+            seen, todo = set(), [0]
+            while todo:
+                x = todo.pop()
+                if x in seen or x in via:
+                    continue
+                seen.add(x)
+                if x in exits:
+                    return True
+                for y in d.succs(x):
+                    if (x, y) not in early and not d.is_cleanup(y):
+                        todo.append(y)
+            return False
+        ok = len(direct) == 1 and len(cu) == 1 and viaclosure and not reaches_exit_unflushed()
         ctx.ob('MUSTCALL', 'drop', ok, short_loc(d.span), 'Drop reaches finish_block on the normal arm and (inside catch_unwind) on the panicking arm: %s' % ok)
